@@ -479,7 +479,18 @@ def reader(ctx, F):
               file=fn["file"], line=hir.line(tbl[1]) if tbl else None,
               what="'w' must be read as White to move and 'b' as Black", expected={"w": "White", "b": "Black"},
               found=tbl[0] if tbl else None)
-    # T5 castling letters -> setters
+    reader_castling_letters(ctx, F, "C11.T5")
+    recs, layout = gamestate_bit_facts(F)
+    for key, ok, fnp, found in recs:
+        ctx.check("C11.T5", "bits:" + key, ok, fn=fnp, file="src/chess/gamestate.rs",
+                  what="getter and setters of a right/en-passant nibble disagree on the bit they use", found=found)
+    reader_rest(ctx, F, fn, body, sym)
+
+
+def reader_castling_letters(ctx, F, rule):
+    """T5 castling letters -> setters (the reference accessor of the bit that is set, see inline.canon_rights)"""
+    fn = F.fn(READER)
+    body = fn["hir"]["body"]
     ctab = None
     for n, anc in hir.walk(body):
         if n.get("k") == "Match" and n.get("src") == "Normal":
@@ -495,13 +506,13 @@ def reader(ctx, F):
                 ctab = (t, n)
     exp = {"K": "set_white_king_castling_true", "Q": "set_white_queen_castling_true",
            "k": "set_black_king_castling_true", "q": "set_black_queen_castling_true"}
-    ctx.check("C11.T5", "reader:castling-letters", ctab is not None and ctab[0] == exp, fn=READER, file=fn["file"],
+    ctx.check(rule, "reader:castling-letters", ctab is not None and ctab[0] == exp, fn=READER, file=fn["file"],
               line=hir.line(ctab[1]) if ctab else None,
-              what="castling letters must grant the right the writer prints them for", expected=exp, found=ctab[0] if ctab else None)
-    recs, layout = gamestate_bit_facts(F)
-    for key, ok, fnp, found in recs:
-        ctx.check("C11.T5", "bits:" + key, ok, fn=fnp, file="src/chess/gamestate.rs",
-                  what="getter and setters of a right/en-passant nibble disagree on the bit they use", found=found)
+              what="castling letters must grant the right the writer prints them for (K, Q, k, q = bits 4, 5, 6, 7 of the state byte that "
+                   "indexes the published state keys)", expected=exp, found=ctab[0] if ctab else None)
+
+
+def reader_rest(ctx, F, fn, body, sym):
     # T6 en passant: decoded file = letter - 'a'; rank table (if the reader has one) equals the writer's
     n_ep = 0
     for call, anc in hir.calls(body, "GameState::set_en_passant"):
